@@ -7,18 +7,25 @@
        (forall v, denote l argv = Accept v -> run_inner feat env (compile_options l) None argv = OutOk v) /\
        (denote l argv = Reject -> exists m, run_inner feat env (compile_options l) None argv = OutStderr m).
    PROVED here: the Accept half for every FLAT level (any number/kind/arity of uniquely named
-   items, positional suffix, no subcommands) -- C01_sentences_accepted_flat -- by refinement:
+   items, positional suffix, no subcommands) -- C01_sentences_accepted_flat -- and for every CHAIN
+   of nested subcommands (each level: items, then one subcommand with aliases; the innermost
+   level flat) -- C01_sentences_accepted_chain -- by refinement:
    AbsSim.v shows the evaluator of this fragment depends on the ledger only through its live
    tokens (a second interpreter over token lists, simulation by mutual induction); ConvRefine.v
    shows that the token-list interpreter applied to the compiled level computes exactly what the
    attribution scan of `denote` computes (every item pops exactly its own occurrences in order,
    the positional suffix takes the remaining words, nothing is left).  Also proved: the "unknown
    name" half of Reject for whole subcommand trees (corollary of C05's exactly-once theorem).
+   ConvChain.v carries this through the command step (the scope narrows to what follows the
+   command word; tokens of deeper levels are inert for the items of a level).  Also proved:
+   totality -- on EVERY vector the parser of a flat level yields a value, a help/version document or
+   an error message, never a panic outcome or fuel exhaustion (C01_flat_total).
    NOT proved (decided per run by conformance testing of the implementation against `denote`):
-   the Accept half for subcommand trees and the rest of the Reject half. *)
+   levels offering a CHOICE of several subcommands (the alternative combinator), and the Reject half
+   beyond unknown names. *)
 From Coq Require Import List Bool.
 From BpafModel Require Import Conv.
-From BpafLemmas Require Import Tac EvalEq Find Reach Ledger NoLoss C05Lemmas OkReach OkLaws ConvLaws AbsSim ConvRefine.
+From BpafLemmas Require Import Tac EvalEq Find Reach Ledger NoLoss C05Lemmas OkReach OkLaws ConvLaws AbsSim AbsTotal ConvRefine ConvTotal ConvChain.
 Import ListNotations.
 
 (* every sentence of a flat level, in every spelling and order the grammar admits, is accepted and
@@ -31,6 +38,28 @@ Theorem C01_sentences_accepted_flat :
   run_inner feat env (compile_options (Level items tail)) None argv = OutOk v.
 Proof. exact denote_accept_flat. Qed.
 Print Assumptions C01_sentences_accepted_flat.
+
+(* the same for chains of nested subcommands *)
+Theorem C01_sentences_accepted_chain :
+  forall feat env l argv v,
+  chain_ok l ->
+  denote l argv = Accept v ->
+  run_inner feat env (compile_options l) None argv = OutOk v.
+Proof. exact denote_accept_chain. Qed.
+Print Assumptions C01_sentences_accepted_chain.
+
+Theorem C01_chain_ok_decidable : forall l, chain_okb l = true -> chain_ok l.
+Proof. exact chain_okb_sound. Qed.
+Print Assumptions C01_chain_ok_decidable.
+
+(* every vector, sentence or not: the outcome is a value, a help/version document or an error
+   message -- never a panic outcome, never fuel exhaustion *)
+Theorem C01_flat_total :
+  forall feat env items tail argv,
+  flat_ok items tail ->
+  normal_outcome (run_inner feat env (compile_options (Level items tail)) None argv).
+Proof. exact flat_run_total. Qed.
+Print Assumptions C01_flat_total.
 
 (* the fragment's evaluator sees the ledger only through its live tokens *)
 Theorem C01_evaluator_depends_on_live_tokens_only :
